@@ -795,9 +795,12 @@ func (g *G) genCond(depth int) *Stmt {
 		}
 	}
 	// any pattern inside the condition is in scope in both blocks and shadows
-	// outer numeric references there
+	// outer numeric references there -- and in the rest of the condition itself
 	if containsMatch(st.E) {
 		g.patsVis += 2
+		seen := 0
+		sanitizeNumeric(st.E, &seen)
+		fixConstDivisors(st.E)
 	}
 	nThen := 1 + g.intn("nthen", 3)
 	st.Then = g.genBlock(depth+1, nThen, blockCtx{})
@@ -817,6 +820,56 @@ func (g *G) genCond(depth int) *Stmt {
 		g.class("nested-conditional")
 	}
 	return st
+}
+
+// sanitizeNumeric replaces numeric capture references that a pattern of the
+// same condition would shadow by literals of the same type. The left operand
+// of the first match operator is evaluated before any pattern of the condition
+// is declared and is kept.
+func sanitizeNumeric(e *Expr, matchesSeen *int) {
+	if e == nil {
+		return
+	}
+	if e.Op == "match" {
+		l := e.Args[0]
+		if !(l.Op == "cap" && l.ByNum && *matchesSeen == 0) {
+			sanitizeNumeric(l, matchesSeen)
+		}
+		*matchesSeen++
+		return
+	}
+	for i, a := range e.Args {
+		if a != nil && a.Op == "cap" && a.ByNum {
+			switch a.Ty {
+			case TInt:
+				e.Args[i] = &Expr{Op: "lit", Ty: TInt, I: 3}
+			case TFloat:
+				e.Args[i] = &Expr{Op: "lit", Ty: TFloat, F: 1.5}
+			default:
+				e.Args[i] = &Expr{Op: "lit", Ty: TString, S: "foo"}
+			}
+			continue
+		}
+		sanitizeNumeric(a, matchesSeen)
+	}
+}
+
+// fixConstDivisors makes sure no / or % has a constant right operand (which
+// might fold to zero) after a rewrite.
+func fixConstDivisors(e *Expr) {
+	if e == nil {
+		return
+	}
+	if e.Op == "bin" && (e.Name == "/" || e.Name == "%") && isConst(e.Args[1]) {
+		if e.Args[1].Ty == TFloat {
+			e.Args[1] = &Expr{Op: "lit", Ty: TFloat, F: 2.5}
+		} else {
+			e.Args[1] = &Expr{Op: "lit", Ty: TInt, I: 2}
+		}
+	}
+	for _, a := range e.Args {
+		fixConstDivisors(a)
+	}
 }
 
 func containsMatch(e *Expr) bool {
